@@ -222,11 +222,11 @@ Proof. destruct c; vm_compute; reflexivity. Qed.
 Lemma upper_idem s : upper (upper s) = upper s.
 Proof. unfold upper. rewrite map_map. apply map_ext. intros c. apply upper1_idem. Qed.
 
-Lemma resolve_case_insensitive s1 s2 : upper s1 = upper s2 -> resolve s1 = resolve s2.
+Lemma resolve_case_insensitive b s1 s2 : upper s1 = upper s2 -> resolve b s1 = resolve b s2.
 Proof. unfold resolve. intros ->. reflexivity. Qed.
 
 (* every spelling s of a bundled name nm (same upper-case form) resolves to nm's file *)
-Lemma resolve_spelling nm raw s : In (nm, raw) submat_files -> upper s = upper nm -> resolve s = RFile raw.
+Lemma resolve_spelling nm raw s : In (nm, raw) submat_files -> upper s = upper nm -> resolve false s = RFile raw.
 Proof.
   intros H Hs. pose proof names_functional as B. rewrite forallb_forall in B. specialize (B (nm, raw) H).
   cbn [fst snd] in B. apply andb_prop in B. destruct B as [B1 B2]. apply str_eqb_eq in B2.
@@ -235,7 +235,7 @@ Proof.
   apply str_eqb_eq in B1. congruence.
 Qed.
 
-Lemma resolve_missing name : resolve name = RMissing <-> ~ In (upper name) submat_names.
+Lemma resolve_missing name : resolve false name = RMissing <-> ~ In (upper name) submat_names.
 Proof.
   unfold resolve, submat_names. rewrite <- dict_get_None.
   destruct (dict_get (upper name) submat_files); split; intros H; try reflexivity; discriminate.
@@ -555,13 +555,13 @@ Lemma submat_bundled nm raw s : In (nm, raw) submat_files -> upper s = upper nm 
   exists m, submat_name s = OMatrix m /\ parse raw = Some m.
 Proof.
   intros H Hs. destruct (bundled_wf nm raw H) as (_ & _ & m & Hm).
-  exists m. split; [|exact Hm]. unfold submat_name. rewrite (resolve_spelling nm raw s H Hs), Hm. reflexivity.
+  exists m. split; [|exact Hm]. unfold submat_name, submat_call, parsed. rewrite (resolve_spelling nm raw s H Hs), Hm. reflexivity.
 Qed.
 Lemma submat_unknown s : ~ In (upper s) submat_names -> submat_name s = OFileNotFound (fnf_message s).
-Proof. intros H. unfold submat_name. rewrite (proj2 (resolve_missing s) H). reflexivity. Qed.
+Proof. intros H. unfold submat_name, submat_call. rewrite (proj2 (resolve_missing s) H). reflexivity. Qed.
 Lemma submat_name_no_value_error s : submat_name s <> OValueError.
 Proof.
-  unfold submat_name, resolve. destruct (dict_get (upper s) submat_files) as [raw|] eqn:E; [|discriminate].
+  unfold submat_name, submat_call, resolve, parsed. destruct (dict_get (upper s) submat_files) as [raw|] eqn:E; [|discriminate].
   apply dict_get_In in E. destruct (bundled_wf _ _ E) as (_ & _ & m & ->). discriminate.
 Qed.
 
@@ -611,4 +611,27 @@ Proof.
   pose proof (words_of_rendered_with e final f Hf) as E. rewrite Hw in E.
   destruct (positional_of_words _ m hs rows E Hwf Hp) as [H1 H2].
   split; [exact H1|]. split; [exact H2|]. exact (cells_of_words _ m hs rows E Hwf Hp).
+Qed.
+
+(* a user's file wins over a bundled name: when the argument is the path of a regular file, that file is parsed,
+   whatever the name spells *)
+Lemma file_wins name content : resolve true name = RPath /\ submat_call name (Some content) = submat_file content.
+Proof. split; reflexivity. Qed.
+(* ... and only when there is no such file does the name decide *)
+Lemma no_file_lookup name : submat_call name None = submat_name name /\ resolve false name <> RPath.
+Proof.
+  split; [reflexivity|]. unfold resolve. destruct (dict_get (upper name) submat_files); discriminate.
+Qed.
+
+Lemma witness_file_wins : exists (name raw : str),
+  In (name, raw) submat_files /\
+  submat_call name (Some (bs "X
+X 42"%bs)) = OMatrix [(bs "X"%bs, [(bs "X"%bs, NInt 42)])] /\
+  submat_call name None = parsed raw.
+Proof.
+  exists (fst w_file), (snd w_file). split; [|split].
+  - rewrite <- surjective_pairing. apply hd_In.
+    intros E. apply (f_equal (@length _)) in E. vm_compute in E. discriminate.
+  - vm_compute. reflexivity.
+  - vm_compute. reflexivity.
 Qed.
